@@ -160,26 +160,31 @@ Definition set_pkg (s : stmt) (p : codepkg) (fixed : bool) (hint : N) : stmt :=
   {| s_label := s_label s; s_instr := s_instr s; s_operand := s_operand s; s_opstr := s_opstr s; s_pkg := p;
      s_fixed := fixed; s_hint := hint |}.
 
-(* Statement.determine_pcr_relative_sizes(statements, this_index, force_16_bit) *)
-Definition determine (ss : list stmt) (this : N) (force : bool) (s : stmt) : res stmt :=
+(* the statement after choosing post-byte choice k: size grows by add, max_size = size, fixed *)
+Definition pcr_pick (s : stmt) (k : nat) (add hint : N) : res stmt :=
   let p := s_pkg s in
+  match nth_error (cp_choices p) k with
+  | None => Internal E_INDEX
+  | Some c =>
+      do pv <- numv (N.lor (v_int (cp_post p)) c);
+      Ok (set_pkg s {| cp_op := cp_op p; cp_addr := cp_addr p; cp_post := pv; cp_add := cp_add p;
+                       cp_size := cp_size p + add; cp_needs := cp_needs p; cp_choices := cp_choices p;
+                       cp_max := cp_size p + add |} true hint)
+  end.
+
+(* the span estimate: (backward?, min_size, max_size) *)
+Definition pcr_span (ss : list stmt) (this : N) (s : stmt) : bool * N * N :=
   let rel := rel_index_of s in
   let backward := rel <? this in
   let '(from, count) := if backward then (N.to_nat rel, N.to_nat (this + 1 - rel)) else (N.to_nat this, N.to_nat (rel - this)) in
-  let mx := sum_range (fun x => cp_max (s_pkg x)) ss from count + 2 in
-  let mn := sum_range (fun x => cp_size (s_pkg x)) ss from count + 2 in
+  (backward, sum_range (fun x => cp_size (s_pkg x)) ss from count + 2, sum_range (fun x => cp_max (s_pkg x)) ss from count + 2).
+
+(* Statement.determine_pcr_relative_sizes(statements, this_index, force_16_bit) *)
+Definition determine (ss : list stmt) (this : N) (force : bool) (s : stmt) : res stmt :=
+  let '(backward, mn, mx) := pcr_span ss this s in
   let lim := if backward then 128 else 127 in
-  let pick (k : nat) (add hint : N) : res stmt :=
-    match nth_error (cp_choices p) k with
-    | None => Internal E_INDEX
-    | Some c =>
-        do pv <- numv (N.lor (v_int (cp_post p)) c);
-        Ok (set_pkg s {| cp_op := cp_op p; cp_addr := cp_addr p; cp_post := pv; cp_add := cp_add p;
-                         cp_size := cp_size p + add; cp_needs := cp_needs p; cp_choices := cp_choices p;
-                         cp_max := cp_size p + add |} true hint)
-    end in
-  if (mn <=? lim) && (mx <=? lim) then pick 0%nat 1 2
-  else if force || ((lim <? mn) && (lim <? mx)) then pick 1%nat 2 4
+  if (mn <=? lim) && (mx <=? lim) then pcr_pick s 0%nat 1 2
+  else if force || ((lim <? mn) && (lim <? mx)) then pcr_pick s 1%nat 2 4
   else Ok s.
 
 Fixpoint update_nth {A} (k : nat) (a : A) (l : list A) : list A :=
